@@ -114,7 +114,7 @@ def get_numbered_lines(content: str):
         ):
             multiline_string = True
             current_string = raw_line
-            multiline_indentation = len(raw_lines[i]) - len(raw_line.lstrip())
+            multiline_indentation = len(raw_lines[i]) - len(raw_lines[i].lstrip())
             i += 1
             continue
 
